@@ -9,6 +9,7 @@ All theorems hold for every configuration and every reachable state (= every fin
 accepts: any number of callers, partitions, batch settings, faults, retries, timer firings, Close).
 -/
 import KafkaVerif.Lemmas.WriterCalls
+import KafkaVerif.Lemmas.WriterMsgs
 import KafkaVerif.Gen.WriterConsts
 
 namespace KV.C07
@@ -164,6 +165,15 @@ every entry already in any log. -/
 theorem stamp_is_fresh (cfg : Cfg) (s : State) (hr : Reachable cfg s) :
     (∀ b B, s.batches b = some B → ∀ m ∈ B.msgs, m.seq < s.seq) ∧ (∀ tp, ∀ x ∈ s.log tp, x.seq < s.seq) :=
   ⟨(invOrd cfg s hr).counterB, (invOrd cfg s hr).counterL⟩
+
+/-- **within_call_ordered** — "within one WriteMessages call": two messages of the same call that go to the same
+topic-partition carry stamps in the order of their indexes in the call's slice (so by `order_preserved` every copy of
+the earlier one precedes every copy of the later one, or they share a batch, where `batch_internal_order` applies). -/
+theorem within_call_ordered (cfg : Cfg) (s : State) (hr : Reachable cfg s) (b b' : Nat) (B B' : Batch)
+    (hB : s.batches b = some B) (hB' : s.batches b' = some B') (htp : B.tp = B'.tp)
+    (m m' : BMsg) (hm : m ∈ B.msgs) (hm' : m' ∈ B'.msgs) (hcall : m.msg.1 = m'.msg.1) (hidx : m.msg.2 < m'.msg.2) :
+    m.seq < m'.seq :=
+  (invMsgs cfg s hr).callOrder b B b' B' hB hB' htp m hm m' hm' hcall hidx
 
 /-- **successive_calls_ordered** — if one WriteMessages call returned before another one began (successive calls of
 one goroutine, synchronous or Async: `endSeq c₁ ≤ beginSeq c₂`, see `begin_after_return`), every message of the
